@@ -173,6 +173,21 @@ do {									\
 
 #endif /* _DEBUG */
 
+#ifdef LIBLCB_VERIF
+/* Verification failpoint (off unless built with -DLIBLCB_VERIF): a harness may
+ * define liblcb_verif_bn_fault() to turn the k-th checked status into an error. */
+extern int liblcb_verif_bn_fault(int err, const char *func) __attribute__((weak));
+#undef BN_RET_ON_ERR
+#define BN_RET_ON_ERR(__err)						\
+do {									\
+	int ret_error = (__err);					\
+	if (liblcb_verif_bn_fault)					\
+		ret_error = liblcb_verif_bn_fault(ret_error, __func__);	\
+	if (0 != ret_error)						\
+		return (ret_error);					\
+} while (0)
+#endif /* LIBLCB_VERIF */
+
 
 #ifdef BN_USE_SSE
 #	include <xmmintrin.h> /* SSE */
